@@ -471,6 +471,15 @@ def _oracle_c13(ctx, desc, f0, spec, src, out, m, m2, label, before, after, audi
             dd = same(got, exp, dtype=False, **kw)
             if dd:
                 V('reload', 'reloaded model.%s differs from the source: %s' % (name, dd), attr=name)
+        # the export stores physical (unwhitened) waveforms: the loaded export serves a template as stored, whichever way it is asked
+        for t_ in range(min(3, int(getattr(m2, 'n_templates', 0) or 0)) if not spec.notes.get('template_scaling') else 0):      # (a display factor in params.py applies to one form only)
+            ra_, rb_ = call(m2.get_template, t_), call(m2.get_template, t_, unwhiten=False)
+            if ra_.ok and rb_.ok and ra_.value is not None and rb_.value is not None:
+                ctx.mon('reloaded_template_accessors')
+                ta_, tb_ = np.asarray(ra_.value.template, dtype=np.float64), np.asarray(rb_.value.template, dtype=np.float64)
+                if ta_.shape != tb_.shape or not np.allclose(ta_, tb_, rtol=1e-5, atol=1e-6 * max(1e-300, float(np.abs(tb_).max()) if tb_.size else 1), equal_nan=True):
+                    V('reload', 'the loaded export whitens / unwhitens its stored template %d (the two accessor forms differ)' % t_, attr='get_template')
+                    break
     # exported files are files of their own (not hard links to source files)
     for fn in sorted(os.listdir(out)):
         fp = os.path.join(out, fn)
